@@ -349,8 +349,10 @@ class CumReductionBlelloch(ArrayExpr):
                 # task is not harmless: dask infers a graph's outputs from its
                 # leaves when an expression is computed together with a Delayed.
                 continue
+            # Totals in the scan's dtype: with an explicit (narrower) ``dtype=`` the
+            # default accumulator would promote every block after the first.
             dsk[(batches_name,) + key] = (
-                partial(preop, axis=axis, keepdims=True),
+                partial(preop, axis=axis, keepdims=True, dtype=dtype),
                 (x.name,) + key,
             )
 
